@@ -55,3 +55,5 @@ func (s *Sim) next(d time.Duration) (event, bool) {
 		return event{}, false
 	}
 }
+
+func (s *Sim) joined() {}
